@@ -269,6 +269,8 @@ class Device:
         self.resets = 0            # connections that ended with a reset instead of an orderly end-of-stream
         self.garbage = False
         self.hangup = False        # answer the next frame by half-closing the connection
+        self.chatty = False        # after the next answer, go on sending: eight more bursts of 1 KiB that nobody asked for
+        self.chat_done = None
         self.server = None
         self.port = 0
 
@@ -301,6 +303,14 @@ class Device:
                 else:
                     writer.write(bytes.fromhex(H.state_reply(1, 100, 10, 20, 3600)))
                 await writer.drain()
+                if self.chatty:
+                    self.chatty = False
+                    for _ in range(8):
+                        await asyncio.sleep(0.005)
+                        writer.write(b"\xfe\xf0" + bytes(1022))
+                        await writer.drain()
+                    if self.chat_done is not None:
+                        self.chat_done.set()
         except (ConnectionResetError, BrokenPipeError):
             self.resets += 1
         finally:
@@ -309,11 +319,8 @@ class Device:
 
     async def pause(self):
         """stop listening (connections are refused) but keep the port number for resume()"""
-        self.server.close()
-        try:
-            await asyncio.wait_for(self.server.wait_closed(), 2)
-        except Exception:  # noqa
-            pass
+        self.server.close()         # the listening socket is gone at once; connections that exist stay (wait_closed() would wait for them)
+        await asyncio.sleep(0)
 
     async def resume(self):
         self.server = await asyncio.start_server(self._serve, "127.0.0.1", self.port, reuse_address=True)
@@ -416,6 +423,26 @@ async def _client_life(api_type: str, acts: List[str]) -> str:
                 elif a == "opeof":
                     dev.hangup = True
                     r = await (api.get_state() if api_type == "type1" else api.stop())
+                elif a in ("opdown", "opeofdown"):
+                    # an operation while the device is not LISTENING any more (the connection that exists stays what it is: alive, or
+                    # - opeofdown - already hung up by the device): the client uses the connection it has
+                    dev.garbage = False
+                    await dev.pause()
+                    try:
+                        r = await (api.get_state() if api_type == "type1" else api.stop())
+                    finally:
+                        await dev.resume()
+                elif a == "opchat":
+                    # the device answers and then keeps sending (8 KiB in bursts nobody reads): once it is done and the data has
+                    # arrived, a disconnect is still an orderly one - the device sees end-of-stream, not a reset
+                    dev.garbage = False
+                    dev.chatty, dev.chat_done = True, asyncio.Event()
+                    r = await (api.get_state() if api_type == "type1" else api.stop())
+                    try:
+                        await asyncio.wait_for(dev.chat_done.wait(), 2)
+                    except asyncio.TimeoutError:
+                        pass
+                    await asyncio.sleep(0.05)
                 elif a == "disc":
                     await api.disconnect()
                 elif a == "ccancel":
